@@ -377,3 +377,63 @@ package iam
 //@ func (IntrospectAccessTokenExtended200JSONResponse).MarshalJSON
 //@   prop C02
 //@   ensures [marshalled-through-the-generated-type] did(call json.Marshal #1) && typeOf(arg(call json.Marshal #1, 0)) == ExtendedTokenIntrospectionResponse
+
+// ---- C17: signed authorization request objects (JAR) ----
+
+//@ func crypto.ParseJWT
+//@   trusted
+//@   summary once
+//@   ensures isNilIface(result.1) ==> !isNilIface(result.0) && did(call f #1) && isNilIface(ret(call f #1).1)
+//@ func (resolver.KeyResolver).ResolveKeyByID
+//@   trusted
+//@   benign
+//@ func (jwt.Token).AsMap
+//@   trusted
+//@   benign
+//@ func parseJWTClaims
+//@   prop C17
+//@   assume-benign
+//@ func (oauthParameters).get
+//@   prop C17
+//@   pure heap
+//@ func (auth.AuthenticationServices).IAMClient
+//@   trusted
+//@   benign
+//@   ensures !isNilIface(result)
+//@ func (iam.Client).OpenIDConfiguration
+//@   trusted
+//@   benign
+//@   ensures isNilIface(result.1) ==> result.0 != nil
+//@ func (jwk.Set).LookupKeyID
+//@   trusted
+//@   benign
+//@ func bytes.Equal
+//@   trusted
+//@   pure heap
+
+// Same key: SHA-256 JWK thumbprints of the configuration key and of the key the signature was verified with are equal.
+//@ func compareThumbprint
+//@   prop C17
+//@   assume-benign
+//@   ensures [thumbprints-equal] isNilIface(result) ==> did(call bytes.Equal #1) && ret(call bytes.Equal #1) == true
+//@        && arg(call bytes.Equal #1, 0) == ret(call (jwk.Key).Thumbprint #1).0 && arg(call bytes.Equal #1, 1) == ret(call (jwk.Key).Thumbprint #2).0
+//@        && arg(call (jwk.Key).Thumbprint #1, 0) == configurationKey && arg(call (jwk.Key).Thumbprint #2, 0) == ret(call jwk.FromRaw #1).0
+//@        && arg(call jwk.FromRaw #1, 0) == publicKey && isNilIface(ret(call jwk.FromRaw #1).1)
+
+// A request object is accepted only if crypto.ParseJWT verified it (one signature, supported
+// algorithm: C17 contracts of package crypto) with the key resolved for its kid as an assertion key,
+// its client_id claim equals the client the request is made for, and that client's published OpenID
+// configuration lists a key under the signer's kid that has the same thumbprint as the verification key.
+//@ func (jar).validate
+//@   prop C17 C02
+//@   ensures [verified-with-a-key-the-client-publishes] isNilIface(result.1) ==>
+//@        isNilIface(ret(call crypto.ParseJWT #1).1) && arg(call crypto.ParseJWT #1, 0) == rawToken
+//@        && isNilIface(ret(call (iam.Client).OpenIDConfiguration #1).1) && arg(call (iam.Client).OpenIDConfiguration #1, 2) == clientId
+//@        && ret(call (jwk.Set).LookupKeyID #1).1 == true && arg(call (jwk.Set).LookupKeyID #1, 1) == signerKid
+//@        && isNilIface(ret(call compareThumbprint #1)) && arg(call compareThumbprint #1, 0) == ret(call (jwk.Set).LookupKeyID #1).0 && arg(call compareThumbprint #1, 1) == publicKey
+//@        && ret(call (oauthParameters).get #1) == clientId
+// The key callback: remembers the kid it was asked for and resolves exactly that kid as an assertion-method key.
+//@ func (jar).validate$1
+//@   prop C17
+//@   ensures [resolves-the-tokens-own-kid] signerKid == kid && did(call (resolver.KeyResolver).ResolveKeyByID #1) && arg(call (resolver.KeyResolver).ResolveKeyByID #1, 1) == kid
+//@        && arg(call (resolver.KeyResolver).ResolveKeyByID #1, 3) == resolver.AssertionMethod && result.0 == ret(call (resolver.KeyResolver).ResolveKeyByID #1).0 && publicKey == result.0
